@@ -28,8 +28,37 @@ fn strategy(_tier: Tier) -> BoxedStrategy<Case> {
         interrupts: true,
         deletes: false,
     };
-    (history_strategy(cfg), prop::collection::vec(any::<u16>(), 3..8))
-        .prop_map(|(hist, flips)| Case { hist, flips })
+    // In a third of the cases the history is made to end with a complete backup (many small
+    // hunks), a few edits, and a backup killed somewhere in the middle: an interrupted
+    // version that continues in an older one.
+    (
+        history_strategy(cfg),
+        prop::collection::vec(any::<u16>(), 3..8),
+        prop::option::weighted(
+            0.33,
+            (
+                1usize..=3,
+                prop::collection::vec(crate::history::edit_strategy(cfg.tree), 0..4),
+                3u16..16,
+            ),
+        ),
+    )
+        .prop_map(|(mut hist, flips, tail)| {
+            if let Some((hunk, edits, k)) = tail {
+                use crate::history::Op;
+                let opts = crate::ops::Opts { hunk, block: 200, cap: 60 };
+                hist.ops.truncate(3);
+                hist.ops.push(Op::Backup(opts));
+                if !edits.is_empty() {
+                    hist.ops.push(Op::Mutate(edits));
+                }
+                hist.ops.push(Op::BackupInterrupted { opts, k, torn: false });
+                // (stitching walks back one id at a time: below b9998 that is ten thousand
+                // operations for every listing of every damage)
+                hist.first_band_id = 0;
+            }
+            Case { hist, flips }
+        })
         .boxed()
 }
 
@@ -150,7 +179,24 @@ fn check_damage(w: &World, pre: &format::RawArchive, cx: &Cx, f: &str, d: Dmg, n
                         continue;
                     }
                     if touches_prov_band_meta {
-                        continue; // the older band this entry is stitched from can no longer be interpreted
+                        // The older band this entry is stitched from can no longer be interpreted
+                        // (a deleted head makes it no version at all). If its head is still there
+                        // but unreadable, losing the entry without a word is a silent drop.
+                        if class == FileClass::BandHead && d != Dmg::Delete {
+                            let exact = pre
+                                .file_bytes(e)
+                                .ok()
+                                .map_or(false, |want| snap.get(&e.apath).and_then(|n| n.content.as_deref()) == Some(&want[..]));
+                            ensure!(
+                                reported || exact,
+                                format!("C10/stitched-file-dropped-silently/bandhead/{}", d.name()),
+                                "band {id}: {} comes from band {} whose head {f} is unreadable after {}; it was not restored and restore reported no error",
+                                e.apath,
+                                prov.band,
+                                d.name()
+                            );
+                        }
+                        continue;
                     }
                     // untouched: must restore exactly
                     let want = pre.file_bytes(e).map_err(|m| Failure::new("C10/harness/pre-damage-dangling", m))?;
@@ -248,6 +294,7 @@ fn check_damage(w: &World, pre: &format::RawArchive, cx: &Cx, f: &str, d: Dmg, n
 }
 
 fn run(case: &Case, cx: &mut Cx) -> CaseResult {
+    let t_case = std::time::Instant::now();
     let mut w = World::for_history(&cx.scratch, &case.hist);
     for op in &case.hist.ops {
         let _ = w.apply(op);
@@ -289,8 +336,45 @@ fn run(case: &Case, cx: &mut Cx) -> CaseResult {
         // quick: an evenly spaced third of the (file, damage) pairs, at most 48 per archive;
         // the offset rotates with the archive so that all damage kinds are covered overall
         let off = files.len() % 3;
+        let full = plan.clone();
         plan = plan.into_iter().skip(off).step_by(3).collect();
-        plan = scen::thin(&plan, 48);
+        // (an interrupted version above four-digit ids: when the damage hides the band below
+        // it, stitching walks back one id at a time, ten thousand operations per listing)
+        let costly = pre.bands.keys().next().map_or(false, |m| *m >= 1000) && pre.bands.values().any(|b| !b.is_closed());
+        plan = scen::thin(&plan, if costly { 12 } else { 48 });
+        // ... plus, never thinned away: where an interrupted version continues in an older
+        // band, that band's hunk at the resume point, the hunk after it and its head
+        let mut targeted: Vec<(String, Dmg)> = vec![];
+        for (id, band) in &pre.bands {
+            if band.is_closed() || !band.head.present_nonempty() {
+                continue;
+            }
+            let reference = format::ref_listing(&pre, *id);
+            let own = band.all_entries().len();
+            if let Some((_, prov)) = reference.get(own) {
+                if let Some(older) = pre.bands.get(&prov.band) {
+                    if let Some(pos) = older.hunks.iter().position(|h| h.relpath == prov.hunk_relpath) {
+                        for h in older.hunks.iter().skip(pos).take(2) {
+                            targeted.push((h.relpath.clone(), Dmg::Delete));
+                            targeted.push((h.relpath.clone(), Dmg::Garbage));
+                        }
+                    }
+                    let head = format!("{}/BANDHEAD", format::band_dirname(prov.band));
+                    targeted.push((head.clone(), Dmg::Garbage));
+                    targeted.push((head, Dmg::TruncateHalf));
+                }
+            }
+        }
+        if std::env::var("VERIF_TIMING").is_ok() {
+            eprintln!("C10 targeted: {targeted:?}");
+        }
+        for (tf, td) in targeted {
+            if let Some((f, d)) = full.iter().find(|(f, d)| **f == tf && *d == td) {
+                if !plan.iter().any(|(pf, pd)| pf == f && pd == d) {
+                    plan.push((*f, *d));
+                }
+            }
+        }
     }
     {
         for (f, d) in plan {
@@ -318,6 +402,9 @@ fn run(case: &Case, cx: &mut Cx) -> CaseResult {
                 cx.inner_failure(fl.with_inner(inner))?;
             }
         }
+    }
+    if std::env::var("VERIF_TIMING").is_ok() {
+        eprintln!("C10 case: {:?} evals={evals} files={} bands={:?} first={}", t_case.elapsed(), files.len(), pre.bands.keys().collect::<Vec<_>>(), case.hist.first_band_id);
     }
     cx.add_evals(evals);
     cx.inner_nontrivial += nontrivial;
@@ -431,7 +518,7 @@ pub fn prop() -> Prop<Case> {
     Prop {
         id: "C10",
         level: "fault_enumeration",
-        rule: "case = archive from a generated history of <=5 ops (incl. interrupted backups) + 3-7 bit-flip positions; inner domain enumerated: every stored file (heads, tails, hunks, blocks; the archive header only for a clean-failure probe) x {delete, truncate 0, truncate half, garbage of equal length} + the generated bit flips in every file (thorough: all pairs; quick: an evenly spaced third, at most 48 per archive). For each: versions, ls and restore of every band, validate (full, quick), a new backup and its restore must return without panic (listing length bounded by the archive's entry count; per-case watchdog for hangs). In every band whose head still parses and whose restore ran: every file entry of the pre-damage reference listing whose own hunk file and block files are not the damaged file (and, for entries stitched from an older band, whose band's head/tail are not the damaged file) must restore byte- and mtime-exact; every file entry whose hunk or block is, by the independent decoder, now missing or undecodable requires that restore reported an error, and a file whose block was damaged and which does not restore to its recorded content must be named by a reported error (per file, so that an error for one file of a shared block does not excuse silently altered siblings) (deletion of the last hunk of an incomplete band is exempt: indistinguishable from an earlier interruption). After delete/truncate-0 a new backup must succeed and restore the source exactly. Non-trivial inner = the damaged file is referenced by at least one version; inner values distinct by construction. Fixed scale probes per run: hunks 9 999, 10 000, 10 001 and 5 of a 10 015-hunk version deleted/garbled/emptied (restore must report, restore everything else exactly, quick validate must report), and three bit flips inside a 6 MiB block",
+        rule: "case = archive from a generated history of <=5 ops (incl. interrupted backups; a third of the histories are made to end with a complete backup in small hunks, edits, and a backup killed in the middle) + 3-7 bit-flip positions; inner domain enumerated: every stored file (heads, tails, hunks, blocks; the archive header only for a clean-failure probe) x {delete, truncate 0, truncate half, garbage of equal length} + the generated bit flips in every file (thorough: all pairs; quick: an evenly spaced third, at most 48 per archive, plus — never thinned away — deletion and garbling of the older band's hunk at the resume point of every interrupted version and of the hunk after it, and garbling/halving of that band's head). For each: versions, ls and restore of every band, validate (full, quick), a new backup and its restore must return without panic (listing length bounded by the archive's entry count; per-case watchdog for hangs). In every band whose head still parses and whose restore ran: every file entry of the pre-damage reference listing whose own hunk file and block files are not the damaged file (and, for entries stitched from an older band, whose band's head/tail are not the damaged file) must restore byte- and mtime-exact; an entry stitched from an older band whose head is still present but unreadable must restore exactly or restore must report an error; every file entry whose hunk or block is, by the independent decoder, now missing or undecodable requires that restore reported an error, and a file whose block was damaged and which does not restore to its recorded content must be named by a reported error (per file, so that an error for one file of a shared block does not excuse silently altered siblings) (deletion of the last hunk of an incomplete band is exempt: indistinguishable from an earlier interruption). After delete/truncate-0 a new backup must succeed and restore the source exactly. Non-trivial inner = the damaged file is referenced by at least one version; inner values distinct by construction. Fixed scale probes per run: hunks 9 999, 10 000, 10 001 and 5 of a 10 015-hunk version deleted/garbled/emptied (restore must report, restore everything else exactly, quick validate must report), and three bit flips inside a 6 MiB block",
         assumptions: &[
             "'reported an error' is lenient: Err, Monitor error, or ERROR-level tracing event",
             "hunks altered but still decodable carry only the no-crash obligation",
